@@ -175,11 +175,23 @@ def generate(rng):
                 cases.append({"kind": kind, "content": content, "pre": pre, "inject": "late-failure"})
             for pt in injection_points(kind):
                 cases.append({"kind": kind, "content": content, "pre": pre, "inject": pt})
+            if kind in ("composeinfo", "images", "rpms", "modules", "extra") and pre:
+                # the object was LOADED from an older-format file at this very path, then made invalid, then saved back
+                cases.append({"kind": kind, "content": content, "pre": "older-at-same-path", "inject": None})
+                cases.append({"kind": kind, "content": content, "pre": "older-at-same-path", "inject": "unencodable"})
             if kind == "treeinfo":
                 # the same faults while an explicit main variant is requested (TreeInfo.dump has its own signature)
                 cases.append({"kind": kind, "content": content, "pre": pre, "inject": None, "main_variant": True})
                 for pt in injection_points(kind):
                     cases.append({"kind": kind, "content": content, "pre": pre, "inject": pt, "main_variant": True})
+    # at scale: a manifest of a few thousand entries (the failure is found by a nested writer, late)
+    big = {"kind": "rpms", "compose": OI.valid_compose(rng, R),
+           "ops": [["Server", "x86_64", "pkg%d-0:1.%d-1.x86_64" % (i, i), "Packages/p/pkg%d.rpm" % i, None, "binary", "src%d-0:1-1.src" % (i % 50)]
+                   for i in range(1600)]}
+    for pre in (True, False):
+        cases.append({"kind": "rpms", "content": big, "pre": pre, "inject": None})
+        cases.append({"kind": "rpms", "content": big, "pre": pre, "inject": "unencodable"})
+        cases.append({"kind": "rpms", "content": big, "pre": pre, "inject": ["composeinfo.Compose", "_validate_label"]})
     return cases
 
 
@@ -195,10 +207,20 @@ def impl(case):
             before = open(path, "rb").read()
             if case["pre"] == "hardlink":
                 os.link(path, path + ".second-name")      # the last good copy is also known under another name
+            if case["pre"] == "older-at-same-path":
+                import json as _json
+                d = _json.load(open(path))
+                d["header"] = {"version": "1.0"}
+                with open(path, "w") as f:
+                    _json.dump(d, f, indent=4, sort_keys=True)
+                before = open(path, "rb").read()
             if case["pre"] == "symlink":
                 os.rename(path, path + ".real")           # the destination path is a symbolic link to the last good copy
                 os.symlink(path + ".real", path)
         obj = build(kind, case["content"])
+        if case["pre"] == "older-at-same-path":
+            obj = type(obj)()
+            obj.load(path)
         restore = None
         if case["inject"] is None:
             really_invalid(kind, obj)
